@@ -272,6 +272,14 @@ def r18_3(ctx, R):
                                 return True
             return False
         all_guarded = bool(removes) and all(guarded_not_last(rbb) for rbb, _ in removes)
+        if removes and not all_guarded and not pushes:
+            # any other test that keeps the last group out of the removal (e.g. `match groups.len() - at { 1 => keep, _ => remove }`)
+            from groups import removal_never_of_last, cursor_events
+            ce = cursor_events(ctx, R, b)
+            inner_ = [bb for bb, t, fn in b.calls() if fn and not b.is_cleanup(bb)
+                      and re.search(r"futures_core::Stream::poll_next$|as futures_core::Stream>::poll_next$", fn["def"])]
+            if ce is not None and len(inner_) == 1:
+                all_guarded = all(removal_never_of_last(ctx, b, fl, inner_[0], rbb, ce[0])[0] for rbb, _ in removes)
         ctx.ob("R18.3", b, "has-remove-and-push-back", bool(removes) and (len(pushes) >= 2 or all_guarded), d_loc(b),
                "remove %d push-back %d; every removal guarded by 'not the last group': %s" % (len(removes), len(pushes), all_guarded))
         if all_guarded:
